@@ -2,7 +2,7 @@
    contigs.  Only statements, each closed by [exact] of a lemma from Proofs/. *)
 From Tola Require Import Py.Base Model.Fragment Model.Scaffold Model.Lookup Model.OverlapResult
   Model.Namer Model.Remap Model.RemapSpec Proofs.RemapFinal.
-From Tola Require Proofs.RemapTail Proofs.RemapHead.
+From Tola Require Proofs.RemapTail Proofs.RemapHead Proofs.Fuel.
 
 (* For EVERY input assembly whose contigs are well-formed intervals with
    pairwise distinct (name, start, end), EVERY Pretext assembly (edit scripts
@@ -65,6 +65,15 @@ Theorem C01_second_half_keys : forall c g prefix input rs o,
     (map key_of (result_frags (rs_b rs) ++ flat_map (fun sc => frags_of (sc_rows sc)) (rs_left rs))).
 Proof. exact Proofs.RemapTail.assemblies_keys. Qed.
 Print Assumptions C01_second_half_keys.
+
+(* the model's fuelled loops (binary search, gap stripping, the "while multi"
+   resolver loop) never run out of fuel: [Err OutOfFuel], a value the Python
+   program cannot produce, is unreachable, so "remap = Err e" always stands for
+   a Python exception and the resolver loop terminates on every input *)
+Theorem C01_never_out_of_fuel : forall c g prefix bpt input pretext,
+  remap c g prefix bpt input pretext <> Err OutOfFuel.
+Proof. exact Proofs.Fuel.remap_never_out_of_fuel. Qed.
+Print Assumptions C01_never_out_of_fuel.
 
 (* non-vacuity: a contig painted by two baits is cut in two and conserved *)
 Example C01_example :
